@@ -59,23 +59,43 @@ def dunder_facts(model, cls, dunder):
         return None
     do_operation(model, cls)
     rets = [n for n in ast.walk(fn.node) if isinstance(n, ast.Return) and n.value is not None]
-    if len(rets) != 1 or not isinstance(rets[0].value, ast.Call):
+    if len(rets) != 1:
         return {"fn": fn, "op": None, "order": None, "lam": None, "why": "body is not a single `return self._DoOperation(...)`"}
-    call = rets[0].value
-    if not (isinstance(call.func, ast.Attribute) and call.func.attr == "_DoOperation" and len(call.args) >= 3):
-        return {"fn": fn, "op": None, "order": None, "lam": None, "why": "does not call _DoOperation(a, b, operation...)"}
-    selfn, othern = fn.params[0], fn.params[1] if len(fn.params) > 1 else None
-    a, b, op = call.args[0], call.args[1], call.args[2]
-    names = (a.id if isinstance(a, ast.Name) else None, b.id if isinstance(b, ast.Name) else None)
-    order = "normal" if names == (selfn, othern) else "reflected" if names == (othern, selfn) else "?"
-    opname = op.value if isinstance(op, ast.Constant) else None
+    # by terms: `return self._DoOperation(a, b, "Op"[, callback])`, also through locals / an inlined wrapper
     from .facts import callable_op
-    lam = callable_op(fn.node, call.args[3], model, fn) if len(call.args) > 3 else None
-    if len(call.args) == 3 and not call.keywords and opname is not None:
+    from .terms import Resolver
+
+    res = Resolver(model, fn)
+    t = res.term(rets[0].value)
+    if not (t[0] == "call" and t[1] == ("field", "_DoOperation") and len(t[2]) >= 3 and not t[3]):
+        return {"fn": fn, "op": None, "order": None, "lam": None, "why": "does not call _DoOperation(a, b, operation...)"}
+    me = ("self",)
+    other = ("param", 1, fn.params[1]) if len(fn.params) > 1 else None
+    a0, a1, opt = t[2][0], t[2][1], t[2][2]
+    order = "normal" if (a0, a1) == (me, other) else "reflected" if (a0, a1) == (other, me) else "?"
+    opname = opt[1] if opt[0] == "const" and isinstance(opt[1], str) else None
+    lam = None
+    has_lambda = len(t[2]) > 3
+    if has_lambda:
+        ct = t[2][3]
+        if ct[0] in ("opfn", "opfn-swapped") and ct[1] in OPFN:
+            lam = (OPFN[ct[1]], ct[0] == "opfn-swapped")
+        elif ct[0] == "lambda":
+            try:
+                lam = lambda_op(ast.parse(ct[1], mode="eval").body)
+            except SyntaxError:
+                lam = None
+        elif ct[0] == "attr" and ct[1] in (("name", "operator"), ("name", "_operator")):
+            from .terms import OPERATOR_MODULE
+            nm = OPERATOR_MODULE.get(ct[2])
+            lam = (OPFN[nm], False) if nm in OPFN else None
+        if lam is None and isinstance(rets[0].value, ast.Call) and len(rets[0].value.args) > 3:
+            lam = callable_op(fn.node, rets[0].value.args[3], model, fn)
+    elif opname is not None:
         # no callback handed over: the operation applied to plain numbers is looked up by the operation's name
         # in a constant module table (`_NUMBER_OPERATORS[operation]`)
         lam = table_number_callback(model, cls, opname)
-    return {"fn": fn, "op": opname, "order": order, "lam": lam, "has_lambda": len(call.args) > 3, "node": rets[0]}
+    return {"fn": fn, "op": opname, "order": order, "lam": lam, "has_lambda": has_lambda, "node": rets[0]}
 
 
 OPFN = {"Add": ast.Add, "Sub": ast.Sub, "Mult": ast.Mult, "Div": ast.Div, "FloorDiv": ast.FloorDiv, "Mod": ast.Mod, "Pow": ast.Pow}
